@@ -27,7 +27,16 @@ SPEC = Spec(
          "real persistentQueue over the mock storage extension (items or requests sizer, sizes incl. 0 and > capacity, queued ids read back "
          "from storage), diffed against the Lean LTS pfire. soak: real memory/persistent queue behind the real asyncQueue under the native "
          "scheduler (2-6 producers x 5-30 offers, contexts ending after 0-300us, 1-3 consumers completing inline or from other goroutines), "
-         "event log judged by the Lean monitor soakAll. distinct = distinct op sequences (sha1 of the op lines).",
+         "event log judged by the Lean monitor soakAll. config: the exporter is built through the real constructors (NewBaseExporter + WithQueueBatchSettings "
+         "+ WithQueueBatch / WithBatcher in both orders -> NewQueueSender -> newQueueBatchConfig -> newQueueBatch -> obsQueue -> asyncQueue -> "
+         "memoryQueue) over sizer (requests/items/bytes) x queue_size x legacy batcher on/off (+ its sizes) x sending_queue::batch on/off x "
+         "block_on_overflow x wait_for_result x consumers x queue enabled/disabled, multi-item requests, export blocked; the REPORTED queue "
+         "size/capacity gauges and every Send result are diffed against the memory-queue model instantiated from the configuration AS WRITTEN "
+         "(capacity = queue_size, size = written sizer of the request); then the export is released and everything must drain to size 0. "
+         "queue/persistent scripts also contain: corpus cases 0-1 (head-of-line witness; Shutdown with two blocked producers), burst labels, "
+         "mid-run Shutdown (persistent: blocked contexts are ended first, no Offer afterwards), and for the persistent queue a restart "
+         "pre-phase (1/4 of the cases: an earlier life leaves 1-6 requests, optionally a stale `si` snapshot, this life may have a smaller "
+         "capacity; `op restore`). distinct = distinct op sequences (sha1 of the op lines).",
     trusted_base=[
         "Lean 4.33.0 kernel; axioms per theorem listed under axioms_per_theorem (subset of propext, Classical.choice, Quot.sound)",
         "hand-written LTS of memory_queue.go (Offer/add/Read/onDone/Shutdown) and of the repaired cond.go, tied by exact differential at "
@@ -45,6 +54,21 @@ SPEC = Spec(
         "storage is outside it (client never fails, queue starts empty, sizes >= 0, no Offer after Shutdown) - C01 owns the storage side",
     ],
     assumptions=[
+        "every handed-over request is completed (Done.OnDone) EXACTLY at most once - the model's `complete` needs the id in flight. In the "
+        "code a second OnDone is not harmless: with wait_for_result it sends on the full capacity-1 blockingDone.ch WHILE HOLDING mu and "
+        "blocks the whole queue; without it it double-Puts the pooled object. The batcher's refCountDone/multiDone (C04) are what guarantees it",
+        "the release clause is proved in the reading of its parenthesis: at rest no producer is blocked while nothing is unfinished (memory: "
+        "size = 0); the literal reading 'released as soon as its request fits' is FALSE for the code (one Signal per completion, head-of-line: "
+        "C02_release_on_space_full_fails, corpus case 0 on the real code); C02_drain_releases_all is existential (some schedule), "
+        "'eventually in every run' additionally needs scheduler/mutex fairness and consumers that keep completing",
+        "all clauses are about a RUNNING queue: after Shutdown the memory queue refuses (errQueueIsStopped) a late Offer and a producer "
+        "released from the overflow wait, nothing is accepted any more (C02_nothing_accepted_after_shutdown), and a still-blocked producer "
+        "is not promised a wake-up (corpus case 1 on the real code: left blocked on an empty stopped queue until its context ends)",
+        "persistent size theorems C02_persistent_size / _size_zero_when_all_finished are for a freshly started (empty) queue; for a queue "
+        "restarted on arbitrary storage (stale si snapshot, lowered capacity) only C02_persistent_size_any_start holds: 0 <= size <= "
+        "max(capacity, restored size), size <= sum(in flight) whenever nothing is queued, 0 when all finished - on the real code the "
+        "reported size exceeds the configured capacity right after such a restart (678 of 1015 generated restarts)",
+        "C02_pinned_cond_deadlock is historical (about the cond.go that was in the tree before the fix); it is not a statement about the checked tree",
         "0 <= capacity; every handed-over request is completed (OnDone) at most once; each producer goroutine issues one Offer per id",
         "liveness is stated as stuck-freedom + no-lost-wake-up at quiescence; fairness of the Go scheduler and of sync.Mutex is assumed, not modelled",
         "the run-to-quiescence harnesses fire internal steps eagerly; schedules in which a context ends and a signal arrives before the "
